@@ -30,9 +30,11 @@ TRUSTED = [
     "ScriptDirectory._upgrade_revs/_downgrade_revs and the real HeadMaintainer.update_to_step (their correctness is C01-C03)",
     "SQLite semantics of CREATE/DROP TABLE, ADD COLUMN, CREATE/DROP (UNIQUE) INDEX, INSERT, DELETE, UPDATE with column defaults, "
     "NOT NULL, PRIMARY KEY / UNIQUE sets (modelled, validated by the run incl. the statement at which a violation stops it)",
-    "transaction behaviour of the sqlite3 driver under the stock env.py (DML opens the transaction, DDL before it is permanent, "
-    "one commit per migration step, rollback on error): modelled (o_snap / rolled_back) and validated on every failing case by "
-    "comparing the real online database after the error with the model's",
+    "transaction behaviour of the sqlite3 driver (DML opens the transaction, DDL before it is permanent, commit per migration step or "
+    "once at the end depending on transactional_ddl / transaction_per_migration, rollback on error) and of an autocommit connection "
+    "executing the script's BEGIN / COMMIT (nested BEGIN and unmatched COMMIT are errors, close after an error rolls back): "
+    "modelled (o_snap / rolled_back / exec_tx) and validated on every failing case by comparing both real databases after the error "
+    "with the model's",
     "C12_same_effect_text / C12_text_read: SQLAlchemy's compiler output has the token structure blanks-tokens-blanks (render_wf) "
     "and SQLite reads a statement text token-wise (sqlite_reads): Section hypotheses, satisfiable (C12_text_nonvacuous), exercised "
     "by executing the real script; SQLAlchemy's text() on op.execute strings: Section variable untext",
@@ -50,7 +52,10 @@ ASSUME = [
     "with CommandError (probed on every run: evidence key multi_head_start_rejected)",
 ]
 RULE = ("quick 700 / thorough 10000 cases.  seeded generation: histories of 1-6 revisions (linear, branched, merges, several bases, depends_on), upgrade ranges "
-        "start:end (start = base or a revision, end = revision/head(s)/+N) and downgrade ranges from:to (to = base, ancestor, -N); "
+        "start:end (start = base or a revision, end = revision/head(s)/+N) and downgrade ranges from:to (to = base, ancestor, -N), "
+        "each under one point of the lattice transactional_ddl {default, True, False} x transaction_per_migration {False, True} "
+        "configured in env.py for BOTH the online run and the offline script (replayed on an autocommit sqlite3 connection, so the "
+        "script's own BEGIN / COMMIT frame it); "
         "bodies over create_table/drop_table/add_column/create_index/drop_index/bulk_insert/execute (columns with and without "
         "server defaults; bulk rows with explicit None, with omitted keys, and ragged key sets under multiinsert=False; execute "
         "literals with colons and backslash-colon escapes) with values from "
@@ -517,7 +522,9 @@ def gen_history(rnd, tier, tabs=False, invalid=False, violate=False):
                                  0x202f, 0x205f, 0x3000, 0x200b, 0x180e, 0xfeff, 8, 14, 27, 33, 0x84, 0x86, 0x9f, 0xa1,
                                  0x2010, 0x200c, 0x3001)] + list("aB'(),=x1") + ["\u00e9"]
     raw = "".join(rnd.choice(raw_pool) for _ in range(rnd.randint(0, 14)))
-    return {"revs": revs, "cmd": cmd, "start": start, "end": end, "raw": raw, "tabs": bool(tabs)}
+    # the configuration lattice of the migration context, the same for the online run and the offline script
+    cfg = {"tddl": rnd.choice([None, None, True, True, True, False]), "tpm": rnd.random() < 0.4}
+    return {"revs": revs, "cmd": cmd, "start": start, "end": end, "raw": raw, "tabs": bool(tabs), "cfg": cfg}
 
 
 def _registered(fid):
@@ -600,16 +607,19 @@ from alembic import context
 from sqlalchemy import create_engine, pool
 config = context.config
 
+TDDL = {"default": None, "true": True, "false": False}[config.get_main_option("av_tddl") or "default"]
+TPM = (config.get_main_option("av_tpm") or "false") == "true"
+
 def run_migrations_offline():
     context.configure(url=config.get_main_option("sqlalchemy.url"), target_metadata=None, literal_binds=True,
-                      dialect_opts={"paramstyle": "named"})
+                      dialect_opts={"paramstyle": "named"}, transactional_ddl=TDDL, transaction_per_migration=TPM)
     with context.begin_transaction():
         context.run_migrations()
 
 def run_migrations_online():
     connectable = create_engine(config.get_main_option("sqlalchemy.url"), poolclass=pool.NullPool)
     with connectable.connect() as connection:
-        context.configure(connection=connection, target_metadata=None)
+        context.configure(connection=connection, target_metadata=None, transactional_ddl=TDDL, transaction_per_migration=TPM)
         with context.begin_transaction():
             context.run_migrations()
 
@@ -874,6 +884,7 @@ def normalise(h):
     """inputs written by earlier versions of this plugin (corpus, replays): columns without NOT NULL flag / default,
     create_table without constraint list, create_index without unique flag, bulk_insert without multiinsert flag"""
     h = json.loads(json.dumps(h))
+    h.setdefault("cfg", {"tddl": None, "tpm": False})
 
     def col(c):
         c = list(c)
@@ -918,6 +929,8 @@ def run_case(h):
             cfg = Config()
             cfg.set_main_option("script_location", d)
             cfg.set_main_option("sqlalchemy.url", "sqlite:///" + os.path.join(d, dbfile))
+            cfg.set_main_option("av_tddl", {None: "default", True: "true", False: "false"}[h["cfg"]["tddl"]])
+            cfg.set_main_option("av_tpm", "true" if h["cfg"]["tpm"] else "false")
             if buf is not None:
                 cfg.output_buffer = buf
             return cfg
@@ -996,15 +1009,19 @@ def run_case(h):
         vers = startdb["vers"]
         db_term = "(mkU %s %s, %s)" % (cf.lst(coq_table(t) for t in startdb["tabs"]), cf.lst(coq_index(x) for x in startdb["idx"]),
                                        "None" if vers is None else "Some %s" % cf.nlist(rid(v) for v in vers))
-        cin = "mkIn %s %s %s %s" % (db_term, cf.nlist([start] if start is not None else []), steps_term, cf.string(h["raw"]))
+        cfg_term = "(mkCfg %s %s)" % ({None: "None", True: "(Some true)", False: "(Some false)"}[h["cfg"]["tddl"]],
+                                       cf.boolean(h["cfg"]["tpm"]))
+        cin = "mkIn %s %s %s %s %s" % (db_term, cf.nlist([start] if start is not None else []), steps_term, cf.string(h["raw"]),
+                                       cfg_term)
         cout = "mkOut %s %s %s" % (coq_obs(con_, on_err is None), coq_obs(coff_, off_err is None), cf.string(posted))
         nsteps = len(plan.steps) if plan else 0
         branched = any(len(r["down"]) > 1 or r["deps"] for r in h["revs"]) or \
             len([r for r in h["revs"] if not r["down"]]) > 1 or \
             any(len([c for c in h["revs"] if r["id"] in c["down"]]) > 1 for r in h["revs"])
-        shape = "%s-%s-%s%s" % (cmd, "branched" if branched else "linear",
-                                "err" if (on_err or off_err) else ("empty" if nsteps == 0 else "ok"),
-                                "-tabs" if h.get("tabs") else "")
+        shape = "%s-%s-%s%s-%s" % (cmd, "branched" if branched else "linear",
+                                   "err" if (on_err or off_err) else ("empty" if nsteps == 0 else "ok"),
+                                   "-tabs" if h.get("tabs") else "",
+                                   {None: "ddlD", True: "ddlT", False: "ddlF"}[h["cfg"]["tddl"]] + ("-pm" if h["cfg"]["tpm"] else ""))
         out = {"online": con_, "offline": coff_, "online_error": on_err, "offline_error": off_err, "plan_error": plan_err,
                "plan": plan.steps if plan else None, "statements": nstmts, "posted": posted}
         return dict(cin=cin, cout=cout, out=out, nontrivial=bool(not on_err and not off_err and nsteps > 0 and nrows > 0),
